@@ -303,6 +303,6 @@ HARNESSES = {
     "aimd-near-max": Harness("aimd-near-max", h_near_max, lambda tier: [{}], style="STEP", bounds="current_bitrate 0..2^32-1, rtt 0..10000 ms, elapsed 0..2^20 ms", encoded=ENC, stubs=STUBS, twin="near-max-computed"),
     "aimd-clamp": Harness("aimd-clamp", h_clamp, lambda tier: [{}], style="STEP", bounds="current 0..2^32-1, new 0..2^40, throughput 0..2^32-1", encoded=ENC, stubs=STUBS, twin="clamped"),
     "aimd-update": Harness("aimd-update", h_aimd_update, lambda tier: [{"steps": s, "avg": v} for s in ((1, 2) if tier == "quick" else (1, 2, 3)) for v in (None, 1000.0)], style="BMC from an arbitrary controller state", bounds="1..2 (quick) / 1..3 consecutive update() calls from an arbitrary controller state: current_bitrate/latest measurement 0..2^32-1, any state/near_max/initialised flags, measurement present or None, gaps 0..5000 ms; avg_max_bitrate_kbps None or 1000.0 (var 0.4)", encoded=ENC + ["aiortc.rate:AimdRateControl.update"], stubs=STUBS + ["AimdRateControl._multiplicative_rate_increase (pow) -> arbitrary int in 1000..2^32-1; _additive_rate_increase -> arbitrary int in 0..2^40 (its contract, result >= 0 and no exception, is the aimd-near-max harness); _update_max_throughput_estimate (float EWMA) -> sets avg to 1000.0; round(0.85*T): any integer within 1/2 + half-ulp of the exact rational product (over-approximates IEEE rounding)"], outside=["float state avg/var_max_bitrate_kbps other than None/1000.0 (sqrt of symbolic floats)"], twin="updated", opts={"lia": True}),
-    "orchestration": Harness("orchestration", h_orchestration, lambda tier: [{"npk": n, "W": 2} for n in ((2,) if tier == "quick" else (2, 3))], style="BMC", bounds="<=3 (quick) / <=4 packets with symbolic SSRCs (overlaps solver-decided), arrival gaps 0..700 ms, sizes 0..1500, window 4 ms", encoded=ENC, stubs=STUBS, twin="added", opts={"samples": 1}),
+    "orchestration": Harness("orchestration", h_orchestration, lambda tier: [{"npk": n, "W": 2} for n in ((2,) if tier == "quick" else (2, 3))], style="BMC", bounds="2 (quick) / 2..3 packets with symbolic SSRCs (overlaps solver-decided), arrival gaps 0..2W ms, sizes 0..1500, measurement window W = 2 ms (RateCounter is parametric in W)", encoded=ENC, stubs=STUBS, twin="added", opts={"samples": 1}),
     "many-ssrcs": Harness("many-ssrcs", h_many_ssrcs, lambda tier: [{"n": n} for n in (2, 255, 256)], style="NC (targeted, concrete count)", bounds="2, 255 and 256 distinct SSRCs", encoded=ENC, stubs=STUBS, twin="many-added"),
 }
